@@ -102,6 +102,9 @@ func (e *Engine) Func(pkgPath, name string) *ssa.Function {
 	return p.Func(name)
 }
 
+// runDeadline: wall-clock limit of the exploration phase of one check (never reported as success when hit)
+var runDeadline time.Time
+
 // ---------- results ----------
 
 type AssertRec struct {
@@ -178,6 +181,7 @@ type HarnessResult struct {
 	ReachModel  map[string]string `json:"reach_model,omitempty"`
 	ReachOK     bool          `json:"reach_ok"`
 	PathsTruncated bool       `json:"paths_truncated,omitempty"`
+	DeadlineHit    bool       `json:"deadline_hit,omitempty"`
 	AllPaths    []*PathResult `json:"all_paths,omitempty"`
 	Funcs       map[string]int `json:"-"`
 	LazyAllocSites []string   `json:"lazy_alloc_sites,omitempty"`
@@ -330,6 +334,11 @@ func (w *Worker) Explore(h *HarnessRun) *HarnessResult {
 		prefix = np
 		if hr.Paths >= h.MaxPaths {
 			hr.PathsTruncated = true
+			break
+		}
+		if !runDeadline.IsZero() && time.Now().After(runDeadline) {
+			hr.PathsTruncated = true
+			hr.DeadlineHit = true
 			break
 		}
 	}
